@@ -44,6 +44,87 @@ def acceptable(expect, got):
     return swap(e) == swap(g)
 
 
+def handlers_layer(ctx, drv):
+    """H2Handlers.tla: when the handler of an accepted request starts (scheduleHandler / handlerDone / the early-reset backlog).
+    TLC: invariants, action properties and liveness on the model; the flood must be inside the bound (NotDead violated).
+    Binding: paths covering the edges of the state graph replayed against the real stack with handlers that ignore their context."""
+    t = ctx.tier
+    ctx.tlc('H2Handlers', 'MC_C13_handlers1.cfg', label='handler scheduling, one slot: invariants, action properties, NoStarvation under fairness', timeout=900)
+    ctx.tlc('H2Handlers', 'MC_C13_handlers2.cfg' if t == 'quick' else 'MC_C13_handlers2_thorough.cfg',
+            label='handler scheduling, two slots: invariants, action properties, NoStarvation under fairness', timeout=3000)
+    r = ctx.tlc('H2Handlers', 'MC_C13_handlers_reach.cfg', label='the ENHANCE_YOUR_CALM flood is reachable inside the bound (NotDead must be violated)', timeout=900, expect_ok=False)
+    if not r.get('violation'):
+        raise vf.Inconclusive('H2Handlers: the flood is not reachable in the bounded model (vacuous)')
+    rng = random.Random(ctx.seed + 77)
+    res = {'paths': 0, 'steps': 0, 'floods': 0, 'queued_then_started': 0, 'dropped_after_reset': 0}
+    for adv, cfg, sample in ((1, 'MC_C13_handlers1_graph.cfg', 1.0), (2, 'MC_C13_handlers2_graph.cfg', 0.02 if t == 'quick' else 0.2)):
+        gpath, g, _ = vf.tlc_graph(ctx, 'H2Handlers', cfg, 'c13hgraph%d' % adv, timeout=1800)
+        epaths, total = vf.edge_cover_paths(g, rng, sample=sample, max_len=34)
+        paths = []
+        for pi, ep in enumerate(epaths):
+            steps = []
+            for ei in ep:
+                e = g['edges'][ei]
+                dst = g['nodes'][e[1]]
+                op = {'Open': 'open', 'Rst': 'rst', 'Finish': 'finish'}[e[2]]
+                k = int(e[3][0]) if e[3] else int(g['nodes'][e[0]]['next'])
+                steps.append({'op': op, 's': k, 'expect': dst['out']})
+            paths.append({'id': pi, 'steps': steps})
+        pending = paths
+        settle = 30
+        verdicts = {}
+        for attempt in range(3):
+            vin = os.path.join(ctx.scratch, 'c13h%d_in_%d.json' % (adv, attempt))
+            vout = os.path.join(ctx.scratch, 'c13h%d_out_%d.json' % (adv, attempt))
+            vf.write_graph(pending, vin)
+            ctx.run_driver(drv, [vin, vout], timeout=3000, env={'VF_MODE': 'handlers', 'VF_ADVMAX': str(adv), 'VF_SETTLE_MS': str(settle),
+                                                                'VF_PAR': '32' if attempt == 0 else '4'})
+            obs = vf.read_json(vout)
+            again = []
+            nerr = 0
+            for p, o in zip(pending, obs):
+                if o.get('err'):
+                    nerr += 1
+                    continue
+                bad = None
+                trail = []
+                for st, so in zip(p['steps'], o['steps']):
+                    trail.append([st['op'], st['s']])
+                    if so.get('err') and not any(x[0] == 'C' for x in st['expect']):
+                        bad = ('connection_lost', 'after %s the connection failed (%s); specification expects %s' % (trail, so['err'], st['expect']), so)
+                        break
+                    if not acceptable(st['expect'], so.get('got') or []):
+                        got = so.get('got') or []
+                        kind = 'handler_started_illegally' if [x for x in got if x[0] == 'START' and x not in [list(y) for y in st['expect']]] else \
+                            'handler_not_started' if any(x[0] == 'START' for x in st['expect']) else 'wrong_reaction'
+                        bad = (kind, 'steps %s (stream k has wire id 2k-1, limit %d): server reacted %s, H2Handlers.tla says %s' % (trail, adv, got, st['expect']), so)
+                        break
+                if bad is None and o.get('late_starts'):
+                    bad = ('handler_started_illegally', 'steps %s (limit %d): %s reached the handler although no step expected a start' % (trail, adv, o['late_starts']), None)
+                if bad is None:
+                    verdicts.pop(p['id'], None)
+                    if attempt == 0:
+                        res['paths'] += 1
+                        res['steps'] += len(p['steps'])
+                        res['floods'] += sum(1 for st in p['steps'] if any(x[0] == 'C' for x in st['expect']))
+                        res['queued_then_started'] += sum(1 for st in p['steps'] if st['op'] == 'finish' and any(x[0] == 'START' for x in st['expect']))
+                else:
+                    # a mismatch is a verdict only if the same path fails again, alone and with a longer settle time
+                    verdicts[p['id']] = (bad, trail)
+                    again.append(p)
+            if nerr > max(3, len(pending) // 20):
+                raise vf.Inconclusive('handlers layer: %d of %d paths failed in the harness' % (nerr, len(pending)))
+            if not again:
+                break
+            pending = again
+            settle *= 6
+        for pid, (bad, trail) in sorted(verdicts.items())[:20]:
+            ctx.violation({'check': 'C13', 'kind': bad[0], 'frame': 'handlers'}, bad[1], {'path': trail, 'observed': bad[2], 'limit': adv})
+        res['graph_edges_%d' % adv] = len(g['edges'])
+        res['edges_sampled_%d' % adv] = total
+    return res
+
+
 def run(ctx):
     t = ctx.tier
     if t == 'thorough':
@@ -134,14 +215,16 @@ def run(ctx):
                           'frames %s: request %s reached the handler although no step expected a handler start' % (trail, late), {'path': trail})
         if len(samples) < 4 and p['id'] % 211 == 0:
             samples.append({'frames': trail, 'reactions': [s.get('got') for s in o['steps']]})
+    hres = handlers_layer(ctx, drv)
     if nerr > max(3, len(paths) // 50):
         raise vf.Inconclusive('%d of %d paths failed in the harness, e.g. %s' % (nerr, len(paths), [o['err'] for o in obs if o.get('err')][:2]))
-    cov = {'traces_validated_against_impl': len(paths) - nerr, 'samples': samples or [{'frames': [s.get('f') for s in paths[0]['steps']]}],
+    cov = {'traces_validated_against_impl': len(paths) - nerr + hres['paths'], 'handler_scheduling_layer': hres, 'samples': samples or [{'frames': [s.get('f') for s in paths[0]['steps']]}],
            'steps_compared': nsteps, 'graph_edges_total': len(g['edges']), 'live_edges_sampled': total, 'edge_sample_fraction': sample,
            'reactions_accepted_by_rfc_latitude_only': diverge, 'paths_cut_at_unobservable_step_inside_open_header_block': unobservable[0],
            'rule': 'paths from the initial state covering a seeded sample of the live edges of the TLC graph (frame alphabet: SETTINGS ok/ack/bad, HEADERS/CONTINUATION with '
                    'END_STREAM/END_HEADERS variants, malformed block, self-dependency, DATA, RST_STREAM, WINDOW_UPDATE ok/zero/overflow, PRIORITY ok/self, PUSH_PROMISE, PING ok/ack/wrong size/on a stream, GOAWAY from the client (graceful state: newer streams discarded, no second GOAWAY on a later connection error), unknown; '
                    'streams 0,1,2,3 with a concurrency limit of 1 in the quick tier, 0,1,2,3,5 with a limit of 2 in the thorough tier; handler completion as an environment action)'}
-    return ctx.finish(cov, assumptions=['the RFC-permitted set is derived from the tabulated reaction plus the two latitude rules (not an independent transcription of RFC 9113)',
+    return ctx.finish(cov, assumptions=['handler scheduling (H2Handlers.tla): handlers that ignore their context; a step whose only effect nothing on the wire acknowledges (a handler of a reset stream returns) is followed by a settle time, and a mismatch is a verdict only when the path fails three times, alone, with settle times up to 1 s',
+                                        'the RFC-permitted set is derived from the tabulated reaction plus the two latitude rules (not an independent transcription of RFC 9113)',
                                         'the scripted client waits for a PING acknowledgement after every frame: reset-in-flight states are not reached',
                                         '"handler started" is observed as arrival at the gated backend behind the real reverse-proxy handler'])
